@@ -368,7 +368,14 @@ fn script_handshake(rng: &mut Rng, tier: Tier, f: &mut dyn FnMut(&str) -> String
     let now_s = now0_us / 1_000_000;
     let max = rng.pick(&[1usize, 1, 2, 2, 3, 4, 0]);
     let two_addrs = rng.chance(1, 3);
-    let srv_addrs: Vec<String> = if two_addrs { vec![SRV_A.to_string(), SRV_B.to_string()] } else { vec![SRV_A.to_string()] };
+    let wild = rng.chance(1, 8);
+    let srv_addrs: Vec<String> = if wild {
+        vec![WILD_4.to_string()]
+    } else if two_addrs {
+        vec![SRV_A.to_string(), SRV_B.to_string()]
+    } else {
+        vec![SRV_A.to_string()]
+    };
     // unsecure mode: connect key = zeros, host list not checked
     let secure = !rng.chance(1, 8);
     let key = if secure { key } else { [0u8; 32] };
@@ -409,7 +416,8 @@ fn script_handshake(rng: &mut Rng, tier: Tier, f: &mut dyn FnMut(&str) -> String
             }
             TokKind::SealProto => spec.seal_proto = proto.wrapping_add(1),
             TokKind::SealExpire => spec.seal_expire = spec.expire + 1,
-            TokKind::WrongHost => spec.addrs = BOGUS_A.to_string(),
+            // (against a wildcard public address: another machine with the SAME port)
+            TokKind::WrongHost => spec.addrs = if wild { a4(10, 99, 99, 99, 5000) } else { BOGUS_A.to_string() },
             TokKind::MultiHost => {
                 // 2..4 addresses, only one of them (at a random position) is the server's
                 let n = rng.range(2, 4) as usize;
@@ -571,6 +579,18 @@ fn script_handshake(rng: &mut Rng, tier: Tier, f: &mut dyn FnMut(&str) -> String
                     sc.op(&format!("cli-q {}", cls[c].h));
                 }
             }
+            11 if rng.chance(1, 2) => {
+                // the application kicks an id whatever its state (half-open, connected, unknown)
+                if !cls.is_empty() {
+                    let c = rng.below(cls.len() as u64) as usize;
+                    let id = if rng.chance(1, 8) { 31337 } else { cls[c].tok.spec.id };
+                    let (out, e) = sc.opd(&format!("srv-disc 0 {}", id));
+                    track_result(&mut st, &out);
+                    if let Some(e) = e {
+                        net.q.push((e, tick));
+                    }
+                }
+            }
             _ => {}
         }
         if tick % 3 == 0 {
@@ -600,11 +620,19 @@ struct Srv0 {
 }
 
 fn setup_server(sc: &mut Sc, rng: &mut Rng, max: usize) -> Srv0 {
+    setup_server_at(sc, rng, max, vec![SRV_A.to_string()])
+}
+
+/// wildcard addresses as PUBLIC addresses of a server (a host list is compared literally: only a token that lists
+/// exactly such an address is for this server)
+const WILD_4: &str = "4:00000000:5000";
+const WILD_6: &str = "6:00000000000000000000000000000000:5001";
+
+fn setup_server_at(sc: &mut Sc, rng: &mut Rng, max: usize, addrs: Vec<String>) -> Srv0 {
     let key = k32(rng);
     let ckey = k32(rng);
     let proto = rng.pick(&[0u64, 7, 0x1122334455667788, u64::MAX]);
     let now_us = rng.pick(&[0u64, 999_999, 5_000_000, 1_758_700_000_123_456]);
-    let addrs = vec![SRV_A.to_string()];
     sc.op(&format!("srv-new 0 {} {} {} 1 {} {} {}", now_us, max, proto, hex(&key), hex(&ckey), addrs.join(",")));
     Srv0 { key, proto, now_us, addrs }
 }
@@ -1348,14 +1376,23 @@ fn forged_request(rng: &mut Rng, genuine: &[u8], proto: u64, now_s: u64) -> Vec<
 
 fn script_attacker(rng: &mut Rng, _tier: Tier, f: &mut dyn FnMut(&str) -> String) {
     let mut sc = Sc::new(f);
-    let scenario = rng.below(13);
+    let scenario = rng.below(15);
     let max = match scenario {
         3 => 1,
         6 | 9 | 10 => rng.pick(&[1usize, 2]),
         7 => rng.pick(&[1usize, 2, 3]),
         _ => rng.pick(&[2usize, 3]),
     };
-    let srv = setup_server(&mut sc, rng, max);
+    let srv = if scenario == 14 {
+        let pubs = match rng.below(3) {
+            0 => vec![WILD_4.to_string()],
+            1 => vec![WILD_4.to_string(), WILD_6.to_string()],
+            _ => vec![SRV_A.to_string(), WILD_6.to_string()],
+        };
+        setup_server_at(&mut sc, rng, max, pubs)
+    } else {
+        setup_server(&mut sc, rng, max)
+    };
     let now_s = srv.now_us / 1_000_000;
     let hosts = srv.addrs.join(",");
     let a = [a4(10, 3, 0, 1, 4301), a4(10, 3, 0, 2, 4302), a6(0x33, 4303)];
@@ -1367,8 +1404,21 @@ fn script_attacker(rng: &mut Rng, _tier: Tier, f: &mut dyn FnMut(&str) -> String
         spec.timeout = 5;
         specs.push(spec);
     }
-    if scenario == 2 || scenario == 7 || scenario == 11 || scenario == 12 {
+    if scenario == 2 || scenario == 7 || scenario == 11 || scenario == 12 || (scenario == 13 && rng.chance(1, 2)) {
         specs[1].id = specs[0].id; // two tokens for one id
+    }
+    if scenario == 14 {
+        // client 0: a token that lists one of the server's public addresses literally (wildcard or not) — legitimate;
+        // client 1: a token for ANOTHER machine with the same port as a wildcard public address; client 2: another
+        // machine, another port, or a v6 host against the v6 wildcard
+        specs[0].addrs = rng.pick(&srv.addrs);
+        let port = if srv.addrs.contains(&WILD_4.to_string()) { 5000 } else { 5001 };
+        specs[1].addrs = if port == 5000 { a4(10, 0, 0, 7, 5000) } else { format!("6:20010db8000000000000000000000007:{}", port) };
+        specs[2].addrs = match rng.below(3) {
+            0 => a4(10, 0, 0, 7, 5999),
+            1 => format!("6:20010db8000000000000000000000008:{}", 5001),
+            _ => format!("{},{}", a4(10, 0, 0, 8, port), a4(10, 0, 0, 9, 6000)),
+        };
     }
     let old_token_expires = scenario == 12 && rng.chance(1, 2);
     if scenario == 12 {
@@ -1865,6 +1915,55 @@ fn script_attacker(rng: &mut Rng, _tier: Tier, f: &mut dyn FnMut(&str) -> String
                 sc.op("srv-dump 0");
                 sc.op(&format!("srv-q 0 {}", id));
             }
+        }
+        13 => {
+            // the application calls disconnect(id) for ids that are NOT connected: half-open (challenged, response not
+            // yet processed), unknown, half-open while another token of the same id is connected: nothing is reported
+            // (and then for connected ones: exactly one report each)
+            let (_, ch0) = srv_rx(&mut sc, &a[0], &reqs[0]);
+            let (_, ch1) = srv_rx(&mut sc, &a[1], &reqs[1]);
+            sc.op("srv-dump 0");
+            sc.op(&format!("srv-disc 0 {}", cls[1].tok.spec.id));
+            sc.op("srv-disc 0 123456789");
+            sc.op(&format!("srv-disc 0 {}", cls[2].tok.spec.id));
+            sc.op("srv-dump 0");
+            // client 0 goes on (when both tokens share the id its half-open entry was the one just named)
+            if let Some(ch) = ch0 {
+                answer_challenge(&mut sc, 0, &a[0], &ch, None);
+            }
+            sc.op("srv-dump 0");
+            // half-open at a[1] (possibly for the id that is connected from a[0] now): still no report for it …
+            if cls[1].tok.spec.id != cls[0].tok.spec.id {
+                sc.op(&format!("srv-disc 0 {}", cls[1].tok.spec.id));
+                sc.op("srv-dump 0");
+                sc.op(&format!("srv-q 0 {}", cls[1].tok.spec.id));
+            }
+            if let Some(ch) = ch1 {
+                answer_challenge(&mut sc, 1, &a[1], &ch, None);
+            }
+            sc.op("srv-dump 0");
+            // … and one report per connected session
+            for i in [0usize, 1, 0] {
+                let (_, e) = sc.opd(&format!("srv-disc 0 {}", cls[i].tok.spec.id));
+                if let Some(k) = e {
+                    let d = sc.hist[k].bytes.clone();
+                    sc.op(&format!("cli-rx {} {}", i, hex(&d)));
+                }
+                sc.op(&format!("srv-q 0 {}", cls[i].tok.spec.id));
+            }
+        }
+        14 => {
+            // a secure server one of whose public addresses is a wildcard: host lists are compared literally
+            for i in [1usize, 2, 0, 1] {
+                let (out, ch) = srv_rx(&mut sc, &a[i], &reqs[i]);
+                if let Some(ch) = ch {
+                    if out.starts_with("send ") {
+                        answer_challenge(&mut sc, cls[i].h, &a[i], &ch, None);
+                    }
+                }
+                sc.op("srv-dump 0");
+            }
+            sc.op(&format!("srv-q 0 {}", cls[2].tok.spec.id));
         }
         4 => {
             // connected session 0; the attacker (owner of session 1) injects packets sealed with its own
@@ -2448,7 +2547,7 @@ fn script_wire(rng: &mut Rng, tier: Tier, f: &mut dyn FnMut(&str) -> String) {
 // profile 0: nc-regress — one fixed op list per repaired defect (deterministic, run on every check)
 // =============================================================================================
 
-const REGRESS_CASES: usize = 29;
+const REGRESS_CASES: usize = 31;
 
 fn regress_script(case: usize, f: &mut dyn FnMut(&str) -> String) {
     let mut rng = Rng::new(0xD1CE + case as u64);
@@ -2457,7 +2556,7 @@ fn regress_script(case: usize, f: &mut dyn FnMut(&str) -> String) {
     let key = k32(rng);
     let ckey = k32(rng);
     let proto = 7u64;
-    let hosts = SRV_A.to_string();
+    let hosts = if case == 30 { format!("{},{}", WILD_4, WILD_6) } else { SRV_A.to_string() };
     let max = match case {
         7 | 19 | 22 => 1,
         13 => 3,
@@ -3284,6 +3383,65 @@ fn regress_script(case: usize, f: &mut dyn FnMut(&str) -> String) {
                 sc.op("srv-dump 0");
             }
             let _ = squat;
+        }
+        // disconnect(id) for ids that are not connected — half-open, unknown — reports nothing; the half-open handshake
+        // can still complete; a connected one is reported exactly once
+        29 => {
+            let mut chal: Option<Vec<u8>> = None;
+            if let (_, Some(k)) = sc.opd("cli-upd 1 0") {
+                let req = sc.hist[k].bytes.clone();
+                if let (_, Some(k)) = sc.opd(&format!("srv-rx 0 {} {}", cls[1].addr, hex(&req))) {
+                    chal = Some(sc.hist[k].bytes.clone());
+                }
+            }
+            sc.op("srv-dump 0");
+            sc.op("srv-disc 0 41"); // half-open
+            sc.op("srv-disc 0 40"); // its client has not even asked yet
+            sc.op("srv-disc 0 999"); // unknown
+            sc.op("srv-dump 0");
+            sc.op("srv-q 0 41");
+            if let Some(ch) = chal {
+                answer_challenge(&mut sc, 1, &cls[1].addr.clone(), &ch, Some("expect-connected"));
+            }
+            sc.op("srv-dump 0");
+            sc.op("srv-disc 0 41");
+            sc.op("srv-disc 0 41");
+            sc.op("srv-dump 0");
+            sc.op("srv-q 0 41");
+        }
+        // a secure server whose public addresses are wildcards (0.0.0.0:5000, [::]:5001): tokens for other machines
+        // with those ports, or other ports, get nothing; tokens listing the wildcard address literally connect
+        30 => {
+            let hostlists = [a4(10, 0, 0, 7, 5000), "6:20010db8000000000000000000000007:5001".to_string(), a4(10, 0, 0, 7, 5999), format!("{},{}", a4(10, 0, 0, 8, 5000), a4(10, 0, 0, 9, 6000))];
+            for (j, list) in hostlists.iter().enumerate() {
+                let mut spec = base_spec(rng, 60 + j as u64, proto, key, 5, list);
+                spec.expire = 35;
+                spec.seal_expire = 35;
+                let a = a4(10, 9, 4, j as u8, 4940 + j as u16);
+                if let Some(c) = new_client(&mut sc, 5 + j as u64, &a, &spec, 5_000_000) {
+                    if let (_, Some(k)) = sc.opd(&format!("cli-upd {} 0", c.h)) {
+                        let req = sc.hist[k].bytes.clone();
+                        if let (out, Some(k)) = sc.opd(&format!("srv-rx 0 {} {}", c.addr, hex(&req))) {
+                            if out.starts_with("send ") {
+                                let ch = sc.hist[k].bytes.clone();
+                                answer_challenge(&mut sc, c.h, &c.addr, &ch, None);
+                            }
+                        }
+                    }
+                }
+            }
+            sc.op("srv-dump 0");
+            // the tokens made for this server (they list the wildcard addresses literally)
+            for i in 0..2usize {
+                if let (_, Some(k)) = sc.opd(&format!("cli-upd {} 0", i)) {
+                    let req = sc.hist[k].bytes.clone();
+                    if let (_, Some(k)) = sc.opd(&format!("srv-rx 0 {} {}", cls[i].addr, hex(&req))) {
+                        let ch = sc.hist[k].bytes.clone();
+                        answer_challenge(&mut sc, i as u64, &cls[i].addr.clone(), &ch, Some("expect-connected"));
+                    }
+                }
+            }
+            sc.op("srv-dump 0");
         }
         // sequence 2^64-1 (the window's EMPTY sentinel) from the owner of a session
         _ => {
